@@ -174,6 +174,75 @@ theorem isStatic_inl (raw : Bytes) : isStatic (.inl raw) = false := by simp only
 theorem isStatic_stat (i l : Nat) : isStatic (.stat i l) = true := by simp only [isStatic]
 theorem max_inline_size_eq : MAX_INLINE_SIZE = MAX_INLINE := by unfold MAX_INLINE_SIZE; rfl
 
+/-! ### raw storage access -/
+theorem as_slice_mut_inl (rf : Refuse) (st : List Bytes) (hp : Heap) (raw : Bytes) :
+    (Repr.as_slice_mut : M ρ SliceMut) ⟨rf, st, hp, .inl raw⟩ = .next ⟨0, MAX_INLINE⟩ ⟨rf, st, hp, .inl raw⟩ := by
+  simp only [Repr.as_slice_mut]
+theorem as_slice_mut_stat (rf : Refuse) (st : List Bytes) (hp : Heap) (i l : Nat) :
+    (Repr.as_slice_mut : M ρ SliceMut) ⟨rf, st, hp, .stat i l⟩ = .ub .writeStatic := by
+  simp only [Repr.as_slice_mut]
+theorem as_slice_mut_heap (rf : Refuse) (st : List Bytes) (hp : Heap) (a l : Nat) {b : Block} (hg : hp.get? a = some b) :
+    (Repr.as_slice_mut : M ρ SliceMut) ⟨rf, st, hp, .heap a l⟩ = .next ⟨0, b.cap⟩ ⟨rf, st, hp, .heap a l⟩ := by
+  simp only [Repr.as_slice_mut, hg]
+theorem as_slice_mut_heap_none (rf : Refuse) (st : List Bytes) (hp : Heap) (a l : Nat) (hg : hp.get? a = none) :
+    (Repr.as_slice_mut : M ρ SliceMut) ⟨rf, st, hp, .heap a l⟩ = .ub .useAfterFree := by
+  simp only [Repr.as_slice_mut, hg]
+theorem as_str_mut_inl (rf : Refuse) (st : List Bytes) (hp : Heap) (raw : Bytes) :
+    (Repr.as_str_mut : M ρ SliceMut) ⟨rf, st, hp, .inl raw⟩ = .next ⟨0, inlLen raw⟩ ⟨rf, st, hp, .inl raw⟩ := by
+  simp only [Repr.as_str_mut, Handle.len]
+theorem as_str_mut_stat (rf : Refuse) (st : List Bytes) (hp : Heap) (i l : Nat) :
+    (Repr.as_str_mut : M ρ SliceMut) ⟨rf, st, hp, .stat i l⟩ = .ub .writeStatic := by
+  simp only [Repr.as_str_mut]
+theorem as_str_mut_heap (rf : Refuse) (st : List Bytes) (hp : Heap) (a l : Nat) {b : Block} (hg : hp.get? a = some b) :
+    (Repr.as_str_mut : M ρ SliceMut) ⟨rf, st, hp, .heap a l⟩ = .next ⟨0, l⟩ ⟨rf, st, hp, .heap a l⟩ := by
+  simp only [Repr.as_str_mut, hg]
+theorem as_str_mut_heap_none (rf : Refuse) (st : List Bytes) (hp : Heap) (a l : Nat) (hg : hp.get? a = none) :
+    (Repr.as_str_mut : M ρ SliceMut) ⟨rf, st, hp, .heap a l⟩ = .ub .useAfterFree := by
+  simp only [Repr.as_str_mut, hg]
+theorem index_range_ap (sl : SliceMut) (a b : Nat) (s : St) :
+    (sl.rs_index_range a b : M ρ SliceMut) s = if a ≤ b ∧ b ≤ sl.len then .next ⟨sl.off + a, b - a⟩ s else .ub .oob := by
+  cases s; rfl
+theorem index_from_ap (sl : SliceMut) (a : Nat) (s : St) :
+    (sl.rs_index_from a : M ρ SliceMut) s = if a ≤ sl.len then .next ⟨sl.off + a, sl.len - a⟩ s else .ub .oob := by
+  cases s; rfl
+theorem sl_len_ap (sl : SliceMut) (s : St) : (sl.rs_len : M ρ Nat) s = .next sl.len s := by cases s; rfl
+theorem sl_as_mut_ptr_ap (sl : SliceMut) (s : St) : (sl.rs_as_mut_ptr : M ρ MutPtr) s = .next ⟨sl.off⟩ s := by cases s; rfl
+theorem ptr_add_ap (p : MutPtr) (n : Nat) (s : St) : (p.rs_add n : M ρ MutPtr) s = .next ⟨p.off + n⟩ s := by cases s; rfl
+theorem str_as_bytes_ap (t : Str) (s : St) : (t.rs_as_bytes : M ρ Str) s = .next t s := by cases s; rfl
+theorem str_as_ptr_ap (t : Str) (s : St) : (t.rs_as_ptr : M ρ ConstPtr) s = .next ⟨t.b⟩ s := by cases s; rfl
+theorem writeSelf_ap (off : Nat) (bytes : Bytes) (s : St) :
+    (writeSelf off bytes : M ρ Unit) s = match writeBytes s.hp s.self off bytes with
+      | .ok (hp', r') => .next () { s with hp := hp', self := r' }
+      | .error u => .ub u := by cases s; rfl
+theorem copy_from_slice_ap (sl : SliceMut) (src : Str) (s : St) :
+    (sl.rs_copy_from_slice src : M ρ Unit) s = if src.b.length = sl.len then (writeSelf sl.off src.b : M ρ Unit) s else .ub .oob := by
+  cases s; rfl
+theorem ptr_copy_ap (src dst : MutPtr) (n : Nat) (s : St) :
+    (ptr.copy src dst n : M ρ Unit) s = match storageOf s.hp s.self with
+      | .error u => .ub u
+      | .ok stor => if src.off + n ≤ stor.length then (writeSelf dst.off ((stor.drop src.off).take n) : M ρ Unit) s else .ub .oob := by
+  cases s; rfl
+theorem ptr_copy_nonoverlapping_ap (src : ConstPtr) (dst : MutPtr) (n : Nat) (s : St) :
+    (ptr.copy_nonoverlapping src dst n : M ρ Unit) s =
+      if n ≤ src.b.length then (writeSelf dst.off (src.b.take n) : M ρ Unit) s else .ub .oob := by
+  cases s; rfl
+theorem sl_chars_ap (sl : SliceMut) (s : St) :
+    (sl.rs_chars : M ρ Chars) s = match storageOf s.hp s.self with
+      | .error u => .ub u
+      | .ok stor => if sl.off + sl.len ≤ stor.length then .next ⟨(stor.drop sl.off).take sl.len⟩ s else .ub .oob := by
+  cases s; rfl
+theorem str_chars_ap (t : Str) (s : St) : (t.rs_chars : M ρ Chars) s = .next ⟨t.b⟩ s := by cases s; rfl
+theorem chars_next_ap (c : Chars) (s : St) :
+    (c.rs_next : M ρ (Option Chr)) s =
+      .next (match c.b with | [] => none | b :: _ => some ⟨c.b.take (charWidth b), charWidth b⟩) s := by cases s; rfl
+theorem chars_next_back_ap (c : Chars) (s : St) :
+    (c.rs_next_back : M ρ (Option Chr)) s =
+      .next (if c.b.isEmpty then none else some ⟨c.b.drop (c.b.length - (trailing c.b + 1)), trailing c.b + 1⟩) s := by cases s; rfl
+theorem unwrap_some (a : α) (s : St) : ((some a).rs_unwrap_unchecked : M ρ α) s = .next a s := by cases s; rfl
+theorem unwrap_none (s : St) : ((none : Option α).rs_unwrap_unchecked : M ρ α) s = .ub .oob := by cases s; rfl
+theorem len_utf8_ap (c : Chr) (s : St) : (c.rs_len_utf8 : M ρ Nat) s = .next c.w s := by cases s; rfl
+
+
 /-- step the monad on a state; extra rewrite rules (the facts of the case at hand) go in brackets -/
 syntax "rt_step" ("[" Lean.Parser.Tactic.simpLemma,* "]")? : tactic
 macro_rules
@@ -186,6 +255,9 @@ macro_rules
       read_self_ap, as_heap_ap, as_heap_mut_ap, as_static_ap, as_static_mut_ap, as_inline_mut_ap,
       hr_is_len_on_heap_ap, hr_realloc_ap, hr_set_len_ap, fence_ap, sr_len_ap, sr_set_len_ap, ir_set_len_ap,
       field_0_ap, overflow_ap, isHeap_heap, isHeap_inl, isHeap_stat, isStatic_heap, isStatic_inl, isStatic_stat,
-      max_inline_size_eq, decide_true, decide_false, Bool.not_true, Bool.not_false, Bool.false_eq_true, ↓reduceIte])
+      max_inline_size_eq, as_slice_mut_inl, as_slice_mut_stat, as_str_mut_inl, as_str_mut_stat, index_range_ap, index_from_ap,
+      sl_len_ap, sl_as_mut_ptr_ap, ptr_add_ap, str_as_bytes_ap, str_as_ptr_ap, writeSelf_ap, copy_from_slice_ap, ptr_copy_ap,
+      ptr_copy_nonoverlapping_ap, sl_chars_ap, str_chars_ap, chars_next_ap, chars_next_back_ap, unwrap_some, unwrap_none, len_utf8_ap,
+      decide_true, decide_false, Bool.not_true, Bool.not_false, Bool.false_eq_true, ↓reduceIte])
 
 end LS.GenTie
